@@ -352,8 +352,12 @@ def report(ctx: click.Context, tjp_file: Optional[str], output_csv: bool, output
                 "This may indicate a scheduling issue with your project."
             )
 
-        # Get the primary output file (first one)
-        primary_output = output_files[0]
+        # The emitted report is always the auto-generated id/start/end report, whatever other
+        # reports the project defines (they land in the same temp directory)
+        auto_outputs = [f for f in output_files if f.stem == auto_report_id]
+        if not auto_outputs:
+            raise ReportGenerationError("Report generation completed but the requested report was not produced.")
+        primary_output = auto_outputs[0]
 
         if verbose:
             logger.debug("Reading report from: %s", primary_output)
